@@ -1,0 +1,13 @@
+//! Verification hooks (compiled only with `--cfg tiny_skia_verif`).
+//!
+//! Thin public wrappers around crate-private cores so that the verification harness in
+//! /verif can drive them directly. Nothing here changes the behaviour of the library.
+#![allow(missing_docs)]
+
+use tiny_skia_path::IntSize;
+
+/// `pixmap::data_len_for_size` (the byte length `Pixmap::new` would allocate).
+pub fn data_len_for_size(width: u32, height: u32) -> Option<usize> {
+    let size = IntSize::from_wh(width, height)?;
+    crate::pixmap::verif_data_len_for_size(size)
+}
